@@ -84,8 +84,8 @@ pub enum RuleRuntimeError {
     AlphaUnknown        (Position),
     LonelySet           (Position),
     UnknownVariable(Token),
-    DeletionOnlySeg,
-    DeletionOnlySyll,
+    DeletionOnlySeg     (Position),
+    DeletionOnlySyll    (Position),
 }
 
 impl From<RuleRuntimeError> for Error {
@@ -127,8 +127,8 @@ impl ASCAError for RuleRuntimeError {
             Self::AlphaUnknown        (_) => "Alpha has not be assigned before applying".to_string(),
             Self::LonelySet           (_) => "A Set in output must have a matching Set in input".to_string(),
             Self::UnknownVariable(token)  => format!("Unknown variable '{}' at {}", token.value, token.position.start),
-            Self::DeletionOnlySyll => "Can't delete a word's only syllable".to_string(),
-            Self::DeletionOnlySeg  => "Can't delete a word's only segment".to_string(),
+            Self::DeletionOnlySyll(_) => "Can't delete a word's only syllable".to_string(),
+            Self::DeletionOnlySeg (_) => "Can't delete a word's only segment".to_string(),
         }
     }
 
@@ -137,7 +137,6 @@ impl ASCAError for RuleRuntimeError {
         let mut result = format!("{} {}", "Runtime Error:".bright_red().bold(), self.get_error_message().bold());
         
         let (arrows, group , line) =  match self {
-            Self::DeletionOnlySyll | Self::DeletionOnlySeg => return result,
             Self::UnknownVariable(t) => (
                 " ".repeat(t.position.start) + &"^".repeat(t.position.end-t.position.start) + "\n", 
                 t.position.group,
@@ -164,6 +163,8 @@ impl ASCAError for RuleRuntimeError {
             Self::AlphaIsNotNode      (pos) |
             Self::AlphaUnknown        (pos) |
             Self::LonelySet           (pos) | 
+            Self::DeletionOnlySyll    (pos) |
+            Self::DeletionOnlySeg     (pos) |
             Self::NodeCannotBeSome (_, pos) |
             Self::NodeCannotBeNone (_, pos) |
             Self::NodeCannotBeSet  (_, pos) => (
